@@ -155,7 +155,9 @@ unicode_wstfont2(unsigned int c, int italic)
 	} else /* 0xF000 ... 0xF7FF reserved for DRCS */
 		return invalid;
 
-	if (italic)
+	/* Only the Latin glyphs (first ten rows of the font) have an
+	   italic counterpart, 31 rows below. */
+	if (italic && c < 10 * 32)
 		return c + 31 * 32;
 	else
 		return c;
